@@ -64,6 +64,15 @@ def prepare_build(workdir, mutant):
         for fn in sorted(glob.glob(os.path.join(hd, "*.go"))):
             dst = os.path.normpath(os.path.join(REPO, info["dir"], "zz_verif_" + os.path.basename(fn)))
             rep[dst] = fn
+    # packages other than pubsub get a copy of the shared case runner
+    core = open(os.path.join(VERIF, "harness", "pubsub", "core_test.go")).read()
+    for pkg, info in PKGS.items():
+        if pkg == "pubsub":
+            continue
+        gen = os.path.join(workdir, "gen", "%s_core_test.go" % pkg)
+        os.makedirs(os.path.dirname(gen), exist_ok=True)
+        open(gen, "w").write(core.replace("package pubsub", "package " + pkg, 1))
+        rep[os.path.normpath(os.path.join(REPO, info["dir"], "zz_verif_core_test.go"))] = gen
     if mutant:
         mdir = os.path.join(workdir, "mut")
         files = re.findall(r"^\+\+\+ b/(\S+)", open(mutant).read(), re.M)
@@ -403,8 +412,8 @@ def do_check(prop, cfg, tier, seed, workdir, ov, t0, mutant, only_mon):
         for k, need in (m.get("min_counts") or {}).items():
             if agg["counts"].get(k, 0) < need:
                 broken.append("%s: observed %s=%d < %d (hook/path never reached)" % (m["name"], k, agg["counts"].get(k, 0), need))
-        log("monitor %-22s cases=%d held=%d violated=%d inconclusive=%d crashes=%d %.1fs" % (
-            m["name"], ms["evaluations"], ms["held"], ms["violated"], ms["inconclusive"], ms["crashes"], ms["wall_s"]))
+        log("monitor %-22s cases=%d held=%d violated=%d inconclusive=%d harness_error=%d crashes=%d %.1fs" % (
+            m["name"], ms["evaluations"], ms["held"], ms["violated"], ms["inconclusive"], ms["harness_error"], ms["crashes"], ms["wall_s"]))
 
     # ---- classify violations against the known-findings file
     new_viol, known_obs = [], {}
